@@ -32,6 +32,9 @@ CHECKS = {
  "C04": dict(cat="fault_enumeration", tech="crash-point enumeration through persistence hooks (directory snapshots + torn prefixes) with recovery in fresh processes vs a model",
    text="Every persistence step executed by a workload is a crash state (directory copy taken inside the hook), plus torn variants of the file/manifest record in flight; each is recovered by a fresh process and must equal model(acked) or model(acked+interrupted); the interrupted statement is retried, new statements must succeed, and crashes during the recovery itself must recover to the same state.",
    note="Process death only (no loss of un-fsynced page cache). The hook runs on the thread performing the step, so the copy is exactly what a kill at that point leaves.", ref="6 C04"),
+ "C15": dict(cat="fault_enumeration", tech="fault injection at the per-operator output hook (error|panic at chunk k / end of stream) + differential against the fault-free run",
+   text="For every operator of the executed plan (observed through the hook) errors and panics are injected at first/middle/last chunk and at end-of-stream, each in its own execution; the statement must fail, or return exactly the fault-free rows; failed INSERT..SELECT / DELETE must leave the target unchanged. Memory and disk engines, current- and multi-thread runtimes.",
+   note="Not injected at the output of the INSERT/DELETE operator itself (post-commit). Benign = fired but result identical.", ref="6 C15"),
 }
 
 def main():
